@@ -155,7 +155,12 @@ pub fn differential(sc: &Scenario, obs: &mut Obs, what: &str) -> Result<(Stats, 
     let _ = before;
     match (&expected, &got) {
         (_, Err(p)) => Err(Failure::new(format!("{what}: engine panics: {}", p.site()), detail("", &p.what))),
-        (Err(Stop::Unsupported(_)), _) | (Err(Stop::Budget), _) => {
+        (Err(Stop::Unsupported(why)), _) => {
+            obs.class("unsupported_by_reference");
+            obs.class(crate::engine::intern(&format!("unsupported: {}", why.split(' ').take(4).collect::<Vec<_>>().join(" "))));
+            Ok((stats, true))
+        }
+        (Err(Stop::Budget), _) => {
             obs.class("unsupported_by_reference");
             Ok((stats, true))
         }
